@@ -1706,3 +1706,37 @@ fn multibyte_adjacency_cases(vocab: &[String], f: &mut dyn FnMut(Case)) {
         }
     }
 }
+
+// ---- (o) string escapes: every escape form with boundary code points (surrogates, > 0x10ffff, overflow of
+//          the accumulator), wrong digits / lengths, unterminated forms — in every kind of string --------------
+
+fn string_escape_cases(f: &mut dyn FnMut(Case)) {
+    let hex = [
+        "", "0", "7f", "80", "ff", "100", "7ff", "800", "d7ff", "d800", "D800", "dbff", "dc00", "dfff", "DFFF", "e000", "fffd", "fffe", "ffff", "10000", "10ffff", "10FFFF", "110000", "1fffff", "ffffff",
+        "1000000", "fffffff", "ffffffff", "100000000", "fffffffff", "ffffffffffffffff", "10000000000000000", "00d800", "0000d800", "00000000000000d800", "0010ffff", "g", "d80g", "-1", "+1", " ", " d800", "d800 ",
+        "d8 00", "\u{fc}", "\u{65e5}", "\u{1f44b}", "_", "0x41", "{41}", "}", "'", "\\",
+    ];
+    let mut escapes: Vec<String> = vec![];
+    for h in hex {
+        escapes.push(format!("\\u{{{}}}", h));
+        escapes.push(format!("\\u{{{}", h)); // unterminated
+        escapes.push(format!("\\u{}", h)); // no braces
+        escapes.push(format!("\\x{}", h));
+        escapes.push(format!("\\x{{{}}}", h));
+    }
+    for c in (0x20u8..0x7f).map(|b| (b as char).to_string()).chain(["\n", "\r\n", "\t", "\u{fc}", "\u{65e5}", "\u{1f44b}", "\u{301}", ""].iter().map(|s| s.to_string())) {
+        escapes.push(format!("\\{}", c));
+        escapes.push(format!("\\{}\\", c));
+    }
+    let shells: &[(&str, &str)] = &[
+        ("'", "'"), ("\"", "\""), ("'a", "b'"), ("'\u{fc}", "\u{65e5}'"), ("r'", "'"), ("r#'", "'#"), ("'{'", "'}'"), ("'{x:", "<5}'"), ("'{x:", "}'"), ("{'", "': 1}"), ("import '", "'"), ("'", ""), ("'", "\n"),
+        ("x = '", "'.to_tuple()"), ("'''", "'''"), ("match 'a'\n  '", "' then 1\n  else 2"), ("'{'{'", "'}'}'"),
+    ];
+    for e in &escapes {
+        for (open, close) in shells {
+            let text = format!("{}{}{}\n", open, e, close);
+            f(Case { kind: 'C', text: text.clone(), group: "string-escape", apis: vec!["compile".into(), "format".into(), "display".into(), "gen:string-escape".into()] });
+            f(Case { kind: 'R', text: format!("x = 1\n{}", text), group: "string-escape", apis: vec!["gen:string-escape".into()] });
+        }
+    }
+}
